@@ -376,6 +376,9 @@ package parse
 //@ func replaceEntities
 // a numeric reference is written as a literal byte only if that byte is ASCII (otherwise it would not be UTF-8 and would
 // decode differently); what replaces it therefore starts with an ASCII byte. The reverse map holds references ('&...').
+// only a complete reference is rewritten: the byte that ended what was replaced is its ';' (in the old text the reference
+// ran from i to result1 + len(b) - len(result0))
+//@   ensures[F,C17,perpath] @semicolon: len(result0) < len(b) ==> old(b[result1 + len(b) - len(result0)]) == ';'
 //@   ensures[F,C17,perpath] @numeric-ascii: old(b[i+1]) == '#' && len(result0) < len(b) ==> result0[i] < 128
 // a reference is not decoded to a bare '&' in front of something that would then read as a reference itself
 //@   ensures[F,C17,perpath] @amp-guard: len(result0) < len(b) && result1 == i && result0[i] == '&' && i + 1 < len(result0) ==> !isRefChar(result0[i+1])
